@@ -46,7 +46,7 @@ def post_case(draw, heavy=False):
   if True:
     pass
   if heavy:
-    case["heavy"] = draw(st.sampled_from([0, 0, 1, 497, 498, 499, 500]))
+    case["heavy"] = draw(st.sampled_from([0, 0, 0, 0, 0, 1, 1, 497, 498, 499, 500]))
     if draw(st.integers(0, 9)) == 0:
       # a subclass that asks for a larger queue, and more events waiting than the shipped size
       case["bigq"] = 600
